@@ -183,6 +183,10 @@ def c13_program(rnd):
     for g in reversed(goals[:-1]):
         body = ('conj', g, body)
     clauses.append(('s2', [sv('X'), sv('W')], body, True))
+    clauses.append(('s3', [sv('Y')], ('conj', ('call', 'assertz', [('F', 'r', [sv('X'), ('A', 'k')])]),
+                                       ('conj', ('call', '=', [sv('X'), ('A', 'a')]), ('call', 'r', [('A', 'b'), sv('Y')]))), True))
+    clauses.append(('s4', [sv('Y')], ('conj', ('call', 'asserta', [('F', 'p', [sv('X')])]),
+                                       ('conj', ('call', '=', [sv('X'), ('F', 'f', [('A', 'a')])]), ('call', 'p', [('F', 'f', [sv('Y')])]))), True))
     # a body that uses one fact twice
     clauses.append(('twice', [sv('A'), sv('B')], ('conj', ('call', 'p', [sv('A')]), ('call', 'p', [sv('B')])), True))
     clauses.append(('twice2', [sv('A'), sv('B'), sv('C')],
@@ -205,7 +209,8 @@ def c13_history(rnd):
             if rnd.random() < 0.5:
                 ops.append(('assert', 'r', rnd.choice(['a', 'z']), [value_term(rnd, 2, 0.6), value_term(rnd, 2, 0.6)]))
             else:
-                ops.append(('query', 's2', rnd.choice([('all',), ('stop', 1)]), [pattern_term(rnd, 3), pattern_term(rnd, 3)]))
+                nm_ = rnd.choice(['s2', 's3', 's4'])
+                ops.append(('query', nm_, rnd.choice([('all',), ('stop', 1)]), [pattern_term(rnd, 3), pattern_term(rnd, 3)] if nm_ == 's2' else [v(23)]))
             ops.append(('query', 'r', ('all',), [[Sym('a'), 'a'], [Sym('a'), 'b']]))
             ops.append(('query', 'r', ('all',), [v(21), [Sym('a'), 'b']]))
             ops.append(('query', 'r', ('all',), [v(21), v(22)]))
@@ -274,6 +279,9 @@ def c14_program(rnd):
     clauses.append(('aba2', [('V', 'X')], ('conj', ('call', 'retract', [('F', 'd', [('V', 'X')])]),
                                            ('conj', ('call', 'once', [('F', 'retract', [('F', 'd', [('V', 'Y')])])]),
                                             ('call', 'asserta', [('F', 'd', [('V', 'Y')])]))), True))
+    clauses.append(('nn', [('V', 'X')], ('conj', ('call', 'd', [('V', 'X')]), ('conj', ('neg', ('call', 'd', [('A', 'zz')])), ('call', 'assertz', [('F', 'd', [('A', 'n')])]))), True))
+    clauses.append(('nf', [('V', 'X'), ('V', 'L')], ('conj', ('call', 'd', [('V', 'X')]), ('conj', ('call', 'findall', [('V', 'Y'), ('F', 'd', [('V', 'Y')]), ('V', 'L')]),
+                                                       ('call', 'assertz', [('F', 'd', [('F', 's', [('V', 'X')])])]))), True))
     # a suspended retract while the facts *in front of* the place it has reached are removed
     clauses.append(('rab', [], ('conj', ('call', 'retract', [('F', 'd', [('A', 'a')])]), ('conj', ('call', 'retractall', [('F', 'd', [('A', 'b')])]), 'fail')), True))
     clauses.append(('rab', [], 'tru'))
@@ -315,8 +323,8 @@ def c14_history(rnd):
         elif r < 0.84:
             ops.append(('query', 'upd', ('all',), []))
         elif r < 0.93:
-            m = rnd.choice(['rr', 'rr2', 'er', 'era', 'aba', 'aba2', 'aba'])
-            ops.append(('query', m, rnd.choice([('all',), ('all',), ('stop', 1), ('stop', 2)]), [v(0), v(1)][:2 if m in ('rr2', 'aba') else 1]))
+            m = rnd.choice(['rr', 'rr2', 'er', 'era', 'aba', 'aba2', 'aba', 'nn', 'nf', 'nn'])
+            ops.append(('query', m, rnd.choice([('all',), ('all',), ('stop', 1), ('stop', 2)]), [v(0), v(1)][:2 if m in ('rr2', 'aba', 'nf') else 1]))
         else:
             ops.append(('query', 'grow', rnd.choice([('all',), ('stop', 2)]), [v(0)]))
         ops.extend(rb)
